@@ -59,11 +59,38 @@ def struct_dfa():
     return T
 
 
-def struct_constraint(z3, bs):
-    T = struct_dfa()
+def placeholder_dfa():
+    """ONE placeholder with every part of a format spec optional, in std's order:
+    `{` [0|a] [' '] [`:` [[*]<] [+] [#] [0] [1|a$] [.1|.*|.a$] [?|x|x?|q] [' ']] `}`  (q: an unknown type letter)"""
+    T = {}
+    chain = ["F", "SG", "H", "Z", "W", "P", "T", "E"]
+    own = {"F": [("<", "SG"), ("*", "FA")], "SG": [("+", "H")], "H": [("#", "Z")], "Z": [("0", "W")], "W": [("1", "P"), ("a", "WD")],
+           "P": [(".", "PD")], "T": [("?", "E"), ("x", "TX"), ("q", "E")], "E": [(" ", "E2"), ("}", "END")]}
+    for i, q in enumerate(chain):
+        for q2 in chain[i:]:
+            for c, r in own[q2]:
+                T.setdefault((q, c), r)
+    for c, r in own["T"] + own["E"]:
+        T.setdefault(("TX", c), r) if c != "x" and c != "q" else None
+    T[("TX", "?")] = "E"
+    T.update({("S", "{"): "A", ("A", "0"): "A1", ("A", "a"): "A1", ("A", " "): "W1", ("A", ":"): "F", ("A", "}"): "END",
+              ("A1", " "): "W1", ("A1", ":"): "F", ("A1", "}"): "END", ("W1", ":"): "F", ("W1", "}"): "END",
+              ("FA", "<"): "SG", ("WD", "$"): "P", ("PD", "1"): "T", ("PD", "*"): "T", ("PD", "a"): "PDD", ("PDD", "$"): "T", ("E2", "}"): "END"})
+    for c, r in own["T"] + own["E"]:
+        T.setdefault(("P", c), r)
+    names = sorted({q for q, _ in T} | set(T.values()))
+    idx = {q: i for i, q in enumerate(names)}
+    return {(idx[q], c): idx[r] for (q, c), r in T.items()}, idx["S"], idx["END"]
+
+
+def struct_constraint(z3, bs, which="structured"):
+    if which == "placeholder":
+        T, q0, qf = placeholder_dfa()
+    else:
+        T, q0, qf = struct_dfa(), 0, 0
     n = len(bs)
     ss = [z3.BitVec("q%d" % i, 8) for i in range(n + 1)]
-    cs = [ss[0] == 0, ss[n] == 0]
+    cs = [ss[0] == q0, ss[n] == qf]
     for i in range(n):
         cs.append(z3.Or(*[z3.And(ss[i] == q, bs[i] == ord(c), ss[i + 1] == r) for (q, c), r in T.items()]))
     return z3.And(*cs)
@@ -122,6 +149,9 @@ def explore(tier, prop):
     passes = [(n, "full") for n in range(0, N + 1)] + [(n, "deep") for n in range(N + 1, DEEP_BOUNDS[tier] + 1)]
     if prop == "C03":
         passes += [(n, "structured") for n in range(max(STRUCT_BOUNDS[tier][0], DEEP_BOUNDS[tier] + 1), STRUCT_BOUNDS[tier][1] + 1)]
+        if tier == "thorough":
+            # one placeholder with every optional part of a format spec: all lengths of the placeholder language
+            passes += [(n, "placeholder") for n in range(2, 19)]
     passes = [(n, w, None) for n, w in passes] + [(len(t), "digits", t) for t in digit_templates(tier)]
     res["passes"] = [(n, w) for n, w, _ in passes]
     res["digit_templates"] = digit_templates(tier)
@@ -148,8 +178,8 @@ def explore(tier, prop):
                 st.pc.append(driver.utf8_alphabet_constraint(bs, n, lambda b: z3.ULT(b, 0x80), MULTIBYTE))
             elif n and which == "deep":
                 st.pc.append(z3.And(*[z3.Or(*[b == ord(c) for c in DEEP_ALPHABET]) for b in bs]))
-            elif n and which == "structured":
-                st.pc.append(struct_constraint(z3, bs))
+            elif n and which in ("structured", "placeholder"):
+                st.pc.append(struct_constraint(z3, bs, which))
             elif n:
                 st.pc.append(z3.And(*[z3.And(z3.UGE(b, 0x30), z3.ULE(b, 0x39)) if c == "D" else b == ord(c) for b, c in zip(bs, tmpl)]))
 
@@ -186,7 +216,7 @@ def explore(tier, prop):
         dt = time.time() - t
         if not ok:
             res["inconclusive"].append("a worker process of the length-%d exploration died" % n)
-        lkey = n if tmpl is None else "digits:" + tmpl
+        lkey = ("digits:" + tmpl) if tmpl is not None else (n if which in ("full", "deep", "structured") else "%s:%d" % (which, n))
         res["lengths"][lkey] = {"alphabet": which, "paths": stats.get("paths", 0), "forks": stats.get("forks", 0), "queries": stats.get("queries", 0),
                              "instrs": stats.get("instrs", 0), "solver_s": round(solver_s, 2), "wall_s": round(dt, 2),
                              "ends": {k[4:]: v for k, v in stats.items() if k.startswith("end_")}}
